@@ -264,6 +264,9 @@ static void update_statistics_float(carquet_page_writer_t* writer,
                                      const float* values, int64_t count) {
     for (int64_t i = 0; i < count; i++) {
         float v = values[i];
+        /* NaN is unordered: it must never become (or stay) a bound.  Skipping it
+         * keeps min/max true bounds of the ordered values of the page. */
+        if (v != v) continue;
         if (!writer->has_min_max) {
             memcpy(writer->min_value, &v, sizeof(v));
             memcpy(writer->max_value, &v, sizeof(v));
@@ -283,6 +286,9 @@ static void update_statistics_double(carquet_page_writer_t* writer,
                                       const double* values, int64_t count) {
     for (int64_t i = 0; i < count; i++) {
         double v = values[i];
+        /* NaN is unordered: it must never become (or stay) a bound.  Skipping it
+         * keeps min/max true bounds of the ordered values of the page. */
+        if (v != v) continue;
         if (!writer->has_min_max) {
             memcpy(writer->min_value, &v, sizeof(v));
             memcpy(writer->max_value, &v, sizeof(v));
